@@ -75,8 +75,8 @@ var (
 	golden, _  = new(big.Int).SetString("9e3779b97f4a7c15", 16)
 )
 
-func hx(b *big.Int) string   { return "0x" + b.Text(16) }
-func hu(u uint64) string     { return fmt.Sprintf("0x%x", u) }
+func hx(b *big.Int) string       { return "0x" + b.Text(16) }
+func hu(u uint64) string         { return fmt.Sprintf("0x%x", u) }
 func ha(a common.Address) string { return hx(new(big.Int).SetBytes(a[:])) }
 func big0x(s string) *big.Int {
 	v, ok := new(big.Int).SetString(strings.TrimPrefix(s, "0x"), 16)
@@ -160,37 +160,37 @@ func precTableString() string {
 // ---------------------------------------------------------------- tracer + oracles evaluated along the run
 
 type pending struct {
-	depth    int
-	op       vm.OpCode
-	root     common.Hash
-	rootN    common.Hash // root with the creator's nonce incremented (CREATE)
-	nlogs    int
-	refund   uint64
-	pc       uint64
-	static   bool
-	hasRoot  bool
+	depth   int
+	op      vm.OpCode
+	root    common.Hash
+	rootN   common.Hash // root with the creator's nonce incremented (CREATE)
+	nlogs   int
+	refund  uint64
+	pc      uint64
+	static  bool
+	hasRoot bool
 }
 
 type tracer struct {
-	steps      int
-	maxDepth   int
-	trace      []string
-	traceOn    bool
-	frameStart []uint64 // gas at the first step of each open frame, by depth-1
-	memViol    string
-	peakMem    int
-	addrs      map[common.Address]bool
-	keys       map[common.Address]map[common.Hash]bool
-	pend       []pending
+	steps        int
+	maxDepth     int
+	trace        []string
+	traceOn      bool
+	frameStart   []uint64 // gas at the first step of each open frame, by depth-1
+	memViol      string
+	peakMem      int
+	addrs        map[common.Address]bool
+	keys         map[common.Address]map[common.Hash]bool
+	pend         []pending
 	nestedBudget int
-	findings   []finding
-	height     int64
-	stepGas    []uint64 // gas before each depth-1 step and its cost (for the +-1 budgets)
-	stepCost   []uint64
-	ops        map[byte]int
-	deadline   time.Time
-	evm        *vm.EVM
-	timedOut   bool
+	findings     []finding
+	height       int64
+	stepGas      []uint64 // gas before each depth-1 step and its cost (for the +-1 budgets)
+	stepCost     []uint64
+	ops          map[byte]int
+	deadline     time.Time
+	evm          *vm.EVM
+	timedOut     bool
 }
 
 type finding struct{ sig, what string }
@@ -205,7 +205,9 @@ func cmem(words uint64) *big.Int {
 func (t *tracer) CaptureStart(from common.Address, to common.Address, call bool, input []byte, gas uint64, value *big.Int) error {
 	return nil
 }
-func (t *tracer) CaptureEnd(output []byte, gasUsed uint64, d time.Duration, err error) error { return nil }
+func (t *tracer) CaptureEnd(output []byte, gasUsed uint64, d time.Duration, err error) error {
+	return nil
+}
 func (t *tracer) CaptureFault(env *vm.EVM, pc uint64, op vm.OpCode, gas, cost uint64, memory *vm.Memory, stack *vm.Stack, contract *vm.Contract, depth int, err error) error {
 	return nil
 }
@@ -453,7 +455,9 @@ func dumpWorld(st *state.StateDB, addrs map[common.Address]bool, keys map[common
 			list = append(list, a)
 		}
 	}
-	sort.Slice(list, func(i, j int) bool { return new(big.Int).SetBytes(list[i][:]).Cmp(new(big.Int).SetBytes(list[j][:])) < 0 })
+	sort.Slice(list, func(i, j int) bool {
+		return new(big.Int).SetBytes(list[i][:]).Cmp(new(big.Int).SetBytes(list[j][:])) < 0
+	})
 	var out []string
 	for _, a := range list {
 		var ks []common.Hash
@@ -629,7 +633,7 @@ func (a *asm) push(v *big.Int) *asm {
 	a.b = append(a.b, bs...)
 	return a
 }
-func (a *asm) pushU(u uint64) *asm        { return a.push(new(big.Int).SetUint64(u)) }
+func (a *asm) pushU(u uint64) *asm         { return a.push(new(big.Int).SetUint64(u)) }
 func (a *asm) pushA(x common.Address) *asm { return a.push(new(big.Int).SetBytes(x[:])) }
 func (a *asm) bytes() []byte               { return a.b }
 
@@ -827,8 +831,8 @@ func libCreate() []byte { // CREATE(0, 0, 0) then return the address
 func callAndReport(op byte, to *big.Int, value int64, height int64) []byte {
 	a := &asm{}
 	a.op(0x36).pushU(0).pushU(0).op(0x37) // CALLDATACOPY(0,0,calldatasize)
-	a.pushU(64).pushU(128)                 // retSize retOffset
-	a.op(0x36).pushU(0)                    // inSize inOffset
+	a.pushU(64).pushU(128)                // retSize retOffset
+	a.op(0x36).pushU(0)                   // inSize inOffset
 	if op == 0xf1 || op == 0xf2 {
 		a.pushU(uint64(value))
 	}
@@ -939,7 +943,10 @@ func (g *gen) templates() []*tcase {
 		}
 		a.op(0x30).op(0x5a).op(o) // ADDRESS GAS CALLx
 		a.pushU(0).op(0x52).pushU(32).pushU(0).op(0xf3)
-		add(fmt.Sprintf("tmpl/recursion-%02x", o), "call", a.bytes(), nil, baseAccts(a.bytes(), libWriter(), libReverter()), "0x0", []uint64{gasLimit, 20000000000, 1 << 62})
+		add(fmt.Sprintf("tmpl/recursion-%02x", o), "call", a.bytes(), nil, baseAccts(a.bytes(), libWriter(), libReverter()), "0x0", []uint64{gasLimit})
+		// down to the depth limit: one epoch per call kind and run
+		out = append(out, &tcase{Kind: "call", Height: g.oneHeight(), Gas: []uint64{20000000000, 1 << 62}[r.Intn(2)], Value: "0x0", Caller: ha(addrCaller), Target: ha(addrMain), Data: "-",
+			Accts: baseAccts(a.bytes(), libWriter(), libReverter()), Class: fmt.Sprintf("tmpl/recursion-%02x", o)})
 	}
 	{
 		// init code that copies itself to memory and CREATEs it again
@@ -949,8 +956,10 @@ func (g *gen) templates() []*tcase {
 		a.op(0x00)
 		add("tmpl/recursion-create", "create", a.bytes(), nil, baseAccts(nil, libWriter(), libReverter()), "0x0", []uint64{gasLimit})
 		// down to the depth limit (1025 keccaks in the model: one epoch per run)
-		out = append(out, &tcase{Kind: "create", Height: g.oneHeight(), Gas: 1 << 50, Value: "0x0", Caller: ha(addrCaller), Target: "0x0", Data: hexb(a.bytes()),
-			Accts: baseAccts(nil, libWriter(), libReverter()), Class: "tmpl/recursion-create"})
+		if g.c.Thorough() {
+			out = append(out, &tcase{Kind: "create", Height: g.oneHeight(), Gas: 1 << 50, Value: "0x0", Caller: ha(addrCaller), Target: "0x0", Data: hexb(a.bytes()),
+				Accts: baseAccts(nil, libWriter(), libReverter()), Class: "tmpl/recursion-create"})
+		}
 	}
 	// every call kind to every precompile address (and 9, which is none) with arbitrary input
 	for _, o := range []byte{0xf1, 0xf2, 0xf4, 0xfa} {
@@ -994,7 +1003,11 @@ func (g *gen) templates() []*tcase {
 	for _, n := range names {
 		ic := inits[n]
 		// as a transaction-level creation
-		add("tmpl/create-top-"+n, "create", ic, nil, baseAccts(nil, libWriter(), libReverter()), "0x5", []uint64{60000, 5200000})
+		hi := uint64(300000)
+		if n == "big" || n == "max" {
+			hi = 5300000 // 24576 bytes of code cost 4.9e6 gas to store
+		}
+		add("tmpl/create-top-"+n, "create", ic, nil, baseAccts(nil, libWriter(), libReverter()), "0x5", []uint64{60000, hi})
 		// from a contract: store init code in memory via CODECOPY of the tail
 		a := &asm{}
 		// assemble with a fixed-width offset push (PUSH2)
@@ -1007,7 +1020,7 @@ func (g *gen) templates() []*tcase {
 		off := len(a.b)
 		a.b[patch], a.b[patch+1] = byte(off>>8), byte(off)
 		code := append(a.b, ic...)
-		add("tmpl/create-nested-"+n, "call", code, nil, baseAccts(code, libWriter(), libReverter()), "0x0", []uint64{100000, 5300000})
+		add("tmpl/create-nested-"+n, "call", code, nil, baseAccts(code, libWriter(), libReverter()), "0x0", []uint64{100000, hi + 100000})
 	}
 	// SELFDESTRUCT to self / to a missing account / to an existing one, directly and through a call
 	for _, to := range []common.Address{addrMain, addrNone, addrLib, addrEmpty} {
@@ -1179,11 +1192,11 @@ func (g *gen) randomCases(n int) []*tcase {
 // ---------------------------------------------------------------- checking one case
 
 type checker struct {
-	c       *vh.Ctx
-	m       *vh.Model
-	opsSeen map[byte]int
-	epochs  map[string]int
-	results map[string]int
+	c            *vh.Ctx
+	m            *vh.Model
+	opsSeen      map[byte]int
+	epochs       map[string]int
+	results      map[string]int
 	maxDepthSeen int
 }
 
@@ -1389,6 +1402,19 @@ func main() {
 		j := g.r.Intn(i + 1)
 		cases[i], cases[j] = cases[j], cases[i]
 	}
+	// the scenario templates (few, each a distinct mechanism) always run; the bulk follows
+	isBulk := func(k *tcase) bool {
+		return strings.HasPrefix(k.Class, "random/") || strings.HasPrefix(k.Class, "tmpl/bounds") || strings.HasPrefix(k.Class, "tmpl/precompile-")
+	}
+	var first, bulk []*tcase
+	for _, k := range cases {
+		if isBulk(k) {
+			bulk = append(bulk, k)
+		} else {
+			first = append(first, k)
+		}
+	}
+	cases = append(first, bulk...)
 	boundary := 0
 	for i, k := range cases {
 		if time.Since(start) > budget {
